@@ -1,7 +1,7 @@
 SPECIFICATION Spec
 CONSTANTS
   Calls = {1, 2}
-  DocIds = {2, 4}
+  DocIds = {2}
   FailKinds = {"error"}
   MaxFetches = 1
   MaxOpen = 2
